@@ -43,3 +43,23 @@ pub open spec fn rvalue_pre<B: ScopedBitRead>(r: UperReader<B>, is_opt: bool) ->
         _ => true,
     })))
 }
+
+/// the root scope `read_sequence` builds from the constants of the Constraint and the extension bit found at `pos0`
+pub open spec fn rscope_built(s: Option<Scope>, std_opt: u64, field_count: u64, ext_after: Option<u64>, name: &'static str, pos0: int, ext_present: bool) -> bool {
+    match ext_after {
+        Some(e) => if ext_present {
+                s == Some(Scope::ExtensibleSequence { name, bit_pos: pos0 as usize,
+                        opt_bit_field: Some(Range { start: (pos0 + 1) as usize, end: (pos0 + 1 + std_opt) as usize }),
+                        calls_until_ext_bitfield: (e + 1) as usize, number_of_ext_fields: (field_count - (e + 1)) as usize })
+            } else { s == Some(Scope::OptBitField(Range { start: (pos0 + 1) as usize, end: (pos0 + 1 + std_opt) as usize })) },
+        None => !ext_present && s == Some(Scope::OptBitField(Range { start: pos0 as usize, end: (pos0 + std_opt) as usize })),
+    }
+}
+
+/// state in which the generated read_seq is entered: the scope above, the cursor directly behind the preamble,
+/// the extension bit (if the type has a marker) as found in the input
+pub open spec fn rseq_entry<B: ScopedBitRead>(r: UperReader<B>, std_opt: u64, field_count: u64, ext_after: Option<u64>, name: &'static str) -> bool {
+    r.wf() && exists|pos0: int, ext_present: bool| 0 <= pos0 && #[trigger] rscope_built(r.scope, std_opt, field_count, ext_after, name, pos0, ext_present)
+        && r.bits.r_pos() == pos0 + (if ext_after is Some { 1int } else { 0int }) + std_opt
+        && (ext_after is Some ==> ext_present == bit_at(r.bits.r_bytes(), pos0))
+}
